@@ -63,6 +63,9 @@ CLAIMED = {
     "C19": ("model-based stateful PBT over view trees on every backing store with canary-guarded memory + exhaustive small-capacity sweeps; ASan replay of all checks in the thorough tier",
         "Generated histories (write, extend incl. endless/panicking iterators, nested views to depth 4, cap_at below/at/above capacity, readers, raw advance, early exits, unwinding) on Vec, ArrayVec, slice, slice reference; exhaustive sweep of every capacity 0..64 x pre-existing length x caps x write lengths. Model = linear byte string + limit per view: remaining(), initialized() and the container length after release must match exactly, nothing outside the window is touched.",
         "Memory-safety half: quick tier = canaries; thorough tier replays the quick case lists of all checks and the fuzz corpora under AddressSanitizer (tools/asan_replay.sh).", "DESIGN.md 2/C19"),
+    "C20": ("stateful PBT: one Net<u8> vs independent per-address reference connections fed the projected sub-history (differential) + peer-table model",
+        "Generated histories over an accepting / non-accepting Net and 4 remote addresses (realistic remote connections incl. vanilla clients, drops, cross-fed datagrams, garbage; connect/accept/reject/ignore/send/flush/disconnect/send_connless/tick). After every op: events, outgoing datagrams and their destination address, send results and the deadline must equal those of an independent single Connection per address with the same clock and per-address random stream; pending peers appear only for connect requests on an accepting endpoint; live peer ids distinct; peers gone after disconnect/reject/ignore/remote close; no panic.",
+        "Differential against libtw2's own Connection (whose behaviour is C01-C04's subject). accept/reject happen before further datagrams of that address are fed, as in the in-repo callers.", "DESIGN.md 2/C20"),
 }
 
 NOT_BUILT_REASON = "check not built yet in this commit (design in DESIGN.md section 2); will be claimed once its module exists"
